@@ -200,7 +200,11 @@ func c18Case(ev *vlib.Evidence, idx int) {
 		np := r.Intn(4)
 		for i := 0; i < np; i++ {
 			h := vlib.NewIdentity("c18new", r.Intn(20))
-			s.peerHosts = append(s.peerHosts, store.Node{ID: store.NodeID(h.NodeID), URI: fmt.Sprintf("enode://%s@203.0.113.%d:30303", h.NodeID, 1+r.Intn(200))})
+			addr := fmt.Sprintf("203.0.113.%d:30303", 1+r.Intn(200))
+			if r.Intn(3) == 0 {
+				addr = vlib.Pick(r, "127.0.0.1:30304", "localhost:30305", "[::1]:30306", "[2001:db8::5]:30307")
+			}
+			s.peerHosts = append(s.peerHosts, store.Node{ID: store.NodeID(h.NodeID), URI: "enode://" + h.NodeID + "@" + addr})
 		}
 		if r.Intn(10) == 0 {
 			s.peerErr = errors.New("scripted peer failure")
